@@ -360,3 +360,69 @@ func TestZZWitnessD17(t *testing.T) {
 		t.Errorf("D17: definition record header 0x40 accepted as the file_id data record")
 	}
 }
+
+// ---- open findings (these fail on the current tree; see known_findings.json) ----
+
+// D7: a second file_id record with another type changes FileId.Type after the container was chosen.
+func TestZZWitnessD7(t *testing.T) {
+	in := zzFile(zzFileID(4), []byte{0x00, 2})
+	f, err := Decode(bytes.NewReader(in))
+	if err != nil {
+		t.Fatalf("D7: %v", err)
+	}
+	if f.Type() != FileTypeSettings {
+		t.Skipf("D7: type is %v", f.Type())
+	}
+	if s, err := f.Settings(); err == nil && s == nil {
+		t.Errorf("D7: File.Type() is settings, Settings() returns (nil, nil): the container of the first file_id type was kept")
+	}
+	defer func() {
+		if r := recover(); r != nil {
+			t.Errorf("D7: Encode of the decoded File panics: %v", r)
+		}
+	}()
+	_ = Encode(io.Discard, f, binary.LittleEndian)
+}
+
+// D8: Decode accepts a string that is not valid UTF-8, Encode refuses it.
+func TestZZWitnessD8(t *testing.T) {
+	// file_id with product_name (field 8, string of 3 bytes): FF FE 00
+	def := zzDefMsg(0, 0, 0, zzDef{0, 1, 0}, zzDef{8, 3, 7})
+	in := zzFile(def, []byte{0x00, 4, 0xFF, 0xFE, 0x00})
+	f, err := Decode(bytes.NewReader(in))
+	if err != nil {
+		t.Fatalf("D8: %v", err)
+	}
+	if err := Encode(io.Discard, f, binary.LittleEndian); err != nil {
+		t.Errorf("D8: a File that Decode accepted cannot be encoded: %v", err)
+	}
+}
+
+// D10: the upper half of compressed_speed_distance is shifted in 8 bits.
+func TestZZWitnessD10(t *testing.T) {
+	accumuDistance = nil
+	x := &RecordMsg{Altitude: 0xFFFF, Speed: 0xFFFF, Cycles: 0xFF, CompressedAccumulatedPower: 0xFFFF, CompressedSpeedDistance: []byte{0x00, 0x00, 0xFF}}
+	x.expandComponents()
+	if x.Distance != 0xFF0 {
+		t.Errorf("D10: compressed_speed_distance 00 00 FF gives distance %d, want %d (the 12 bits above the speed)", x.Distance, 0xFF0)
+	}
+	accumuDistance = nil
+}
+
+// D11: total_cycles and accumulated_power use an accumulator whose mask is 0.
+func TestZZWitnessD11(t *testing.T) {
+	accumuTotalCycles, accumuAccumulatedPower = nil, nil
+	x := &RecordMsg{Altitude: 0xFFFF, Speed: 0xFFFF, Cycles: 5, CompressedAccumulatedPower: 7}
+	x.expandComponents()
+	if x.TotalCycles != 5 || x.AccumulatedPower != 7 {
+		t.Errorf("D11: cycles 5 / power 7 expand to total_cycles %d, accumulated_power %d", x.TotalCycles, x.AccumulatedPower)
+	}
+	accumuTotalCycles, accumuAccumulatedPower = nil, nil
+}
+
+// D14: +90 degrees is invalid, -90 degrees is valid.
+func TestZZWitnessD14(t *testing.T) {
+	if NewLatitude(1<<30).Invalid() != NewLatitude(-(1 << 30)).Invalid() {
+		t.Errorf("D14: NewLatitude(1<<30).Invalid() = %v, NewLatitude(-(1<<30)).Invalid() = %v", NewLatitude(1<<30).Invalid(), NewLatitude(-(1<<30)).Invalid())
+	}
+}
